@@ -694,3 +694,5 @@ func checkC12(c *C12Case, st *VStats) *VFailure {
 func init() { vRegister("C12", checkC12) }
 
 func TestC12(t *testing.T) { vRunProp(t, "C12", genC12, checkC12) }
+
+func FuzzC12(f *testing.F) { vFuzzProp(f, "C12", genC12, checkC12) }
